@@ -26,9 +26,11 @@ pub fn run(rec: &mut Recorder, w: &mut World, tier: &str, seed: u64) {
     let maxlen = if tier == "thorough" { 150 } else { 40 };
     // exhaustive: every history of length <= 2 over the C04 alphabet plus the notification ops
     #[derive(Clone)]
-    enum St { M(MOp), Notify(bool), Save, Fault(&'static str, MOp) }
+    enum St { M(MOp), Notify(bool), Save, Fault(&'static str, MOp), Flag(&'static str, bool) }
     let mut base: Vec<St> = alpha.iter().cloned().map(St::M).collect();
     base.push(St::Notify(true)); base.push(St::Notify(false)); base.push(St::Save);
+    // the other enforcer switches must not influence what is notified
+    base.push(St::Flag("build", false)); base.push(St::Flag("build", true)); base.push(St::Flag("enforce", false));
     let mut hists: Vec<Vec<St>> = vec![];
     for a in &base { hists.push(vec![a.clone()]); for c in &base { hists.push(vec![a.clone(), c.clone()]); } }
     let n_ex = hists.len();
@@ -36,6 +38,7 @@ pub fn run(rec: &mut Recorder, w: &mut World, tier: &str, seed: u64) {
         let len = 1 + rng.below(maxlen);
         hists.push((0..len).map(|_| match rng.below(16) {
             0 => St::Notify(rng.chance(2, 3)), 1 => St::Save,
+            3 => St::Flag(*rng.pick(&["build", "enforce"]), rng.chance(1, 2)),
             2 => St::Fault(*rng.pick(&["err", "refuse"]), random_op(&mut rng, &u)),
             _ => St::M(random_op(&mut rng, &u)) }).collect());
     }
@@ -53,6 +56,7 @@ pub fn run(rec: &mut Recorder, w: &mut World, tier: &str, seed: u64) {
                 St::M(op) => { let out = rec.exec(w, &op.line()); let c = refs.apply(op); let _ = out; (op.line(), Some(c), op.kind()) }
                 St::Notify(v) => { rec.exec(w, &format!("e.auto\tnotify\t{}", v)); enabled = *v; (format!("notify {}", v), None, "toggle") }
                 St::Save => { rec.exec(w, "e.save"); ("e.save".into(), None, "save") }
+                St::Flag(which, v) => { rec.exec(w, &format!("e.auto\t{}\t{}", which, v)); (format!("enable_{} {}", which, v), None, "flag") }
                 St::Fault(f, op) => { rec.exec(w, &format!("e.fault\t{}", fault_plan(op, f))); rec.exec(w, &op.line()); rec.exec(w, "e.fault\t-"); (format!("fault {} {}", f, op.line()), Some(false), "rejected") }
             };
             descr.push(line.replace('\t', " "));
@@ -61,7 +65,7 @@ pub fn run(rec: &mut Recorder, w: &mut World, tier: &str, seed: u64) {
             let evs: Vec<&str> = if evs_s == "-" { vec![] } else { evs_s.split(' ').collect() };
             // (1) exactly one notification per change, none otherwise; clear/save exactly one
             let expect = if !enabled { 0 } else { match (st, want_changed) {
-                (St::M(MOp::Clear), _) => 1, (St::Save, _) => 1, (St::Notify(_), _) => 0,
+                (St::M(MOp::Clear), _) => 1, (St::Save, _) => 1, (St::Notify(_), _) => 0, (St::Flag(..), _) => 0,
                 (St::M(MOp::DelUser(_)), _) | (St::M(MOp::DelRole(_)), _) => usize::MAX, // two internal calls: 0..2 events, checked by the replica
                 (_, Some(true)) => 1, _ => 0 } };
             if expect != usize::MAX && evs.len() != expect {
